@@ -207,6 +207,13 @@ func (tr *FnTr) instr(in ssa.Instruction) {
 		}
 	case *ssa.MakeSlice:
 		ln, cp := tr.val(x.Len).L[0], tr.val(x.Cap).L[0]
+		if tr.depth == 0 && tr.ct != nil && tr.ct.MakeBound != nil && !tr.top.refute {
+			// allocation in proportion to the input: checked before the make executes,
+			// whether or not a panic would be recovered
+			ctx := tr.calleeCtx(tr.fn, tr.params, nil, tr.entry, tr.entry)
+			bound := ctx.intTerm(tr.ct.MakeBound.E)
+			tr.vc.Oblige("allocbound", "", Implies(tr.st.Reach, Or(Lt(cp, Int(0)), Le(cp, bound))), tr.pos(x.Pos()))
+		}
 		tr.check("make", And(Le(Int(0), ln), Le(ln, cp), Le(cp, maxLen)), x.Pos())
 		obj := tr.newObject(tr.vname(x))
 		tr.env[x] = Val{T: x.Type(), L: []*Term{obj, Int(0), ln, cp}}
@@ -527,7 +534,14 @@ func (tr *FnTr) binop(op token.Token, x, y Val, T types.Type, p token.Pos) Val {
 		case isFloat(XT):
 			r = tr.vc.Fresh("feq", SBool)
 		default:
-			if _, isSlice := XT.Underlying().(*types.Slice); isSlice {
+			_, isPtr := XT.Underlying().(*types.Pointer)
+			if isPtr && (isNilConstVal(x) || isNilConstVal(y)) {
+				a := x
+				if isNilConstVal(x) {
+					a = y
+				}
+				r = Eq(a.L[0], Int(0))
+			} else if _, isSlice := XT.Underlying().(*types.Slice); isSlice {
 				// only comparison with nil is legal
 				a := x
 				if isNilConstVal(x) {
@@ -617,6 +631,11 @@ func (tr *FnTr) stringEq(x, y Val) *Term {
 // result of an arithmetic operator on type b, with wrap-around or overflow obligation.
 func (tr *FnTr) finish(raw *Term, b *types.Basic, p token.Pos, canOverflow bool) *Term {
 	if !canOverflow {
+		return raw
+	}
+	if tr.top.refute && !tr.top.refuteWrap {
+		// bounded search, first pass: only executions without integer wrap-around
+		tr.st.Reach = tr.vc.Def("reach", And(tr.st.Reach, inRange(raw, b)))
 		return raw
 	}
 	if tr.top.ct != nil && tr.top.ct.NoOverflow {
